@@ -52,6 +52,11 @@ Proof. exact c12_interrupt. Qed.
 Theorem C12_send_not_interruptible : forall (c : chunk) k now, on_interrupt now (Send c k) = Send c k.
 Proof. exact c12_send_not_interruptible. Qed.
 
+(** regenerated from toxics/*.go on every run: in no built-in toxic is the hand-off `stub.Output <- x`
+    an arm of a select - which is what makes [Send] states deaf to interrupts in the model *)
+Theorem C12_sends_are_plain : toxic_sends_are_plain = true.
+Proof. reflexivity. Qed.
+
 (** outside the documented range the recursion still terminates and partitions the chunk; the
     pieces are non-empty but their size is not bounded by the attributes, whose arithmetic may wrap (C07; the pinned code diverged on 0/0: F5a) *)
 Theorem C12_total_any_attributes : forall (fuel : nat) avg var start end_ draws,
